@@ -47,6 +47,12 @@ let o_helo (arg : n list) : bool =
   let t = trim s in
   t <> "" && not (String.contains t ' ')
 
+(* local parts: a dot-string of atext, or one quoted string of atext / brackets (what the generator uses) *)
+let local_ok (l : string) =
+  let n = String.length l in
+  (l <> "" && String.for_all is_atext l)
+  || (n >= 3 && l.[0] = '"' && l.[n - 1] = '"'
+      && String.for_all (fun c -> is_atext c || c = '[' || c = ']') (String.sub l 1 (n - 2)))
 let o_addr (is_rcpt : bool) (arg : n list) : ap_result =
   let s = str_of_bytes arg in
   let rec skip i = if i < String.length s && s.[i] = ' ' then skip (i + 1) else i in
@@ -55,7 +61,8 @@ let o_addr (is_rcpt : bool) (arg : n list) : ap_result =
   else match String.index_from_opt s i '>' with
     | None -> AP_syntax
     | Some j ->
-        let inner = String.sub s (i + 1) (j - i - 1) in
+        (* addrsyntax() lower-cases the whole address before anything else looks at it *)
+        let inner = String.lowercase_ascii (String.sub s (i + 1) (j - i - 1)) in
         let more = if j + 1 >= String.length s then None else Some (bytes_of_str (String.sub s (j + 1) (String.length s - j - 1))) in
         if inner = "" then (if is_rcpt then AP_syntax else AP_ok ([], more, RNotLocal))
         else match String.index_opt inner '@' with
@@ -67,7 +74,7 @@ let o_addr (is_rcpt : bool) (arg : n list) : ap_result =
               else if local <> "" && String.for_all is_atext local && is_rcpt && is_other_literal dom then
                 AP_nouser
               else
-              if local = "" || not (String.for_all is_atext local) || not (domain_ok dom) then AP_syntax
+              if not (local_ok local) || not (domain_ok dom) then AP_syntax
               else
                 let addr = bytes_of_str (local ^ "@" ^ dom) in
                 if dom = "example.org" then
